@@ -59,7 +59,7 @@ register("C02", ["c02", "c02x", "c04", "sigchain", "hazards", "pins"],
          ["the C07 lemma", "certificates inside accepted messages were verified (C04 rules run with this property)"],
          TRUSTED)
 
-register("C17", ["c17", "c17w", "hazards"],
+register("C17", ["c17", "c17w", "hazards", "pins"],
          "Static dominance, guard tables and who-may-call facts over the scope runtime (generic MIR): run/run_blocking read the recorded failure and return only after the joined root task and the completed wait for the `terminated` signal, with the cancel guard dropped first; each spawn method wraps user code in Task::run/run_blocking of a guard-holding task; the PanicReporter is armed before and defused after the user code, Err results and un-defused drops are reported through set_err; set_err's 6-row table (a panic is never overwritten, an error only by a panic, cancel iff stored) and the result mapping table are enumerated; the unsafe lifetime-erasing spawns have exact caller sets and are private. Schedule-dependent clauses (which failure is first, cancellation latency) and the tokio runtime are not decided.",
          ["tokio joins/aborts tasks as documented; Arc/Weak drop semantics", "scope::run! is the only caller of Scope::run (macro hygiene)"],
          TRUSTED)
